@@ -253,12 +253,16 @@ class Fit(Base):
             raise TypeError(f"Grid search fit {self.id} has no children")
 
         best_fit = None
-        max_log_likelihood = float("-inf")
 
         for fit in self.children:
-            if fit.max_log_likelihood > max_log_likelihood:
+            # a cell that has not produced samples yet has no likelihood
+            if fit.max_log_likelihood is None:
+                continue
+            if (
+                best_fit is None
+                or fit.max_log_likelihood > best_fit.max_log_likelihood
+            ):
                 best_fit = fit
-                max_log_likelihood = fit.max_log_likelihood
 
         return best_fit
 
